@@ -44,6 +44,7 @@ type RunStats struct {
 	SchedHash  uint64         `json:"sched_hash"`
 	StateHash  uint64         `json:"state_hash"`
 	LogHash    uint64         `json:"log_hash"`
+	NonTrivial bool           `json:"nontrivial"` // set by engines whose non-triviality is not a matter of reordering
 }
 
 // Sim is one simulated run.
@@ -388,12 +389,14 @@ func (s *Sim) Run() {
 		}
 		// nothing enabled but operations are still in flight: let time pass
 		idleSpins++
-		if idleSpins > 2000 {
-			s.Fail(s.Prop, "stuck", "no progress: operations in flight but nothing enabled for %d time advances; busy=%v",
+		if idleSpins > 400 {
+			s.Fail(s.Prop, "stuck", "no progress: operations in flight but nothing enabled for %d time advances (months of simulated time); busy=%v",
 				idleSpins, s.W.BusySubs())
 			return
 		}
-		s.sleepOrWake(time.Minute)
+		// geometric: a minute at first, up to a day per advance
+		d := time.Minute << uint(min(idleSpins, 11))
+		s.sleepOrWake(d)
 	}
 	if s.Step >= s.MaxSteps && s.Viol == nil {
 		s.Probe("step-cap")
